@@ -104,13 +104,15 @@ def rhs(L, shape, t):
     return getattr(L, shape)('e', t)
 
 
-def run_assign(el, w, unchecked, tier):
+def run_assign(el, w, unchecked, tier, part=None):
     res = []
     ops = {None: None, 'Add': ast.Add, 'Sub': ast.Sub, 'Mul': ast.Mul, 'Div': ast.Div, 'Mod': ast.Mod}
     for where in ('local', 'glob'):
         # index shapes include a mutable global: the right-hand side may change it, the element addressed must be the one
         # the index denoted when it was evaluated (before the right-hand side)
         for ish in ('opaque', 'literal', 'local', 'glob'):
+            if part is not None and part != f'{where}-{ish}':
+                continue          # (thorough tier: one task per array storage x index shape)
             for rsh in RHS[el]:
                 for opn, op in ops.items():
                     if op is not None and (el == B or (tier == 'quick' and (ish not in ('opaque', 'glob') or rsh == 'local'))):
@@ -174,12 +176,12 @@ def run_literal(el, w, unchecked, tier):
     return res
 
 
-def run(family, el, w, unchecked, tier):
+def run(family, el, w, unchecked, tier, part=None):
     el = {'int': I, 'byte': Y, 'bool': B, '-': None}[el]
     if family == 'lookup': return run_lookup(el, w, unchecked, tier)
     if family == 'string-lookup': return run_string_lookup(w, unchecked, tier)
     if family == 'length': return run_length(w, unchecked, tier)
-    if family == 'assign': return run_assign(el, w, unchecked, tier)
+    if family == 'assign': return run_assign(el, w, unchecked, tier, part)
     if family == 'literal': return run_literal(el, w, unchecked, tier)
     raise ValueError(family)
 
@@ -192,6 +194,17 @@ def tasks(tier):
             for fam in ('lookup', 'assign', 'literal'):
                 for el in ('int', 'byte', 'bool'):
                     if tier == 'quick' and unchecked and fam == 'literal':
+                        continue
+                    if fam == 'assign' and tier == 'thorough':
+                        for where in ('local', 'glob'):
+                            for ish in ('opaque', 'literal', 'local', 'glob'):
+                                if w == 8 and ish == 'glob':
+                                    # 64-bit words with the index in a mutable global: the obligations carry sums of eight bytes with coefficients up
+                                    # to 2^56 in address arithmetic mod 2^64; z3 and cvc5 time out on a good part of them (DESIGN 16.10).  Covered at
+                                    # w = 2, 3, 4 (the generator is parametric in the word size); not claimed at w = 8.
+                                    continue
+                                out.append(task(MOD, 'run', P, label=f'array/{fam}/{el}/{where}-{ish}/w{w}/u{int(unchecked)}', cost=8 * w * (2 if unchecked else 1),
+                                                family=fam, el=el, w=w, unchecked=unchecked, tier=tier, part=f'{where}-{ish}'))
                         continue
                     out.append(task(MOD, 'run', P, label=f'array/{fam}/{el}/w{w}/u{int(unchecked)}', cost=20 * w * (2 if unchecked else 1) * (3 if fam == 'assign' else 1),
                                     family=fam, el=el, w=w, unchecked=unchecked, tier=tier))
